@@ -250,7 +250,7 @@ def edit_session(case):
     """look-ups on every node, an in-place edit, the same look-ups on the same objects again (twice over)"""
     from mathy_core import expressions as E
     out = []
-    for how in ("rotate", "swap", "newroot", "unlink", "reattach"):
+    for how in ("rotate", "swap", "newroot", "unlink", "reattach", "replace"):
         try:
             probe = build(case)
         except BaseException:  # noqa
@@ -275,7 +275,7 @@ def edit_session(case):
                 roots_now = {id(nd.get_root()): nd.get_root() for nd in nodes}
                 h = project.snapshot(objs, list(roots_now.values()), payload=True)
                 ids = sorted({str(nd.id) for nd in nodes})[:5] + ["no-such-id"]
-                st = {"after": after, "h": h, "findid": [], "lists": [], "roots": []}
+                st = {"after": after, "h": h, "findid": [], "lists": [], "roots": [], "sibs": []}
                 for nd in nodes:
                     for i in ids:
                         try:
@@ -291,6 +291,10 @@ def edit_session(case):
                         st["roots"].append({"start": objs.of(nd), "got": objs.of(nd.get_root())})
                     except BaseException:  # noqa
                         st["roots"].append({"start": objs.of(nd), "got": -1})
+                    try:
+                        st["sibs"].append({"start": objs.of(nd), "got": objs.of(nd.get_sibling())})
+                    except BaseException:  # noqa
+                        st["sibs"].append({"start": objs.of(nd), "got": -1})
                 steps.append(st)
             ask("nothing")
             try:
@@ -317,6 +321,15 @@ def edit_session(case):
                         continue
                     extra = E.AddExpression(root, E.ConstantExpression(1))
                     project.absorb(objs, [extra])
+                    nodes = list(objs.keep)
+                elif how == "replace":
+                    # an operand replaced through the setter with its default flag: the replaced node keeps pointing at its former
+                    # parent, but it is no operand of it any more - it has no sibling and is in no listing
+                    if target.parent is None:
+                        continue
+                    par = target.parent
+                    par.set_side(E.ConstantExpression(9), par.get_side(target))
+                    project.absorb(objs, [par.get_root()])
                     nodes = list(objs.keep)
                 elif how == "unlink":
                     if target.parent is None:
